@@ -80,6 +80,8 @@ func init() {
 }
 
 func runC19(p *chk.Prog, r *chk.Report) {
+	// the configuration kept for the next reconcile is not edited by the dump (DUMP-COPY, shared with C15)
+	c15Dump(p, r)
 	c19SubmitUnderLock(p, r)
 	scratchRule(p, r, frrPkg, "internal/k8s/controllers")
 	c19Debouncer(p, r)
